@@ -94,7 +94,9 @@ func VerifC13_State() {
 				wanted = append(wanted, indices[i])
 			}
 		}
-		wanted = append(wanted, 999) // an index Vouch does not manage
+		if vnd.Bool("also-an-index-vouch-does-not-manage") {
+			wanted = append(wanted, 999)
+		} // (otherwise possibly the empty list: what the attester asks with when everybody has attested already)
 	}
 	var got map[phase0.ValidatorIndex]e2wtypes.Account
 	var err error
@@ -197,7 +199,7 @@ func VerifC13_Refresh() {
 }
 
 // the account specifiers and account names of VerifC13_Specifiers
-var c13Specifiers = []string{"Wallet 1", "Wallet 1/Account 1", "Wallet 1/Account [0-9]", "^Wallet 1/Acc.*$", "Wallet 1/^Account 1$", "Wallet 2", "Wallet 1/.*2"}
+var c13Specifiers = []string{"Wallet 1", "Wallet 1/Account 1", "Wallet 1/Account [0-9]", "^Wallet 1/Acc.*$", "Wallet 1/^Account 1$", "Wallet 2", "Wallet 1/.*2", "Wallet 1/a.***"}
 var c13Names = []string{"Account 1", "Account 10", "Account 2", "Extra Account 1", "Acc"}
 
 // c13FullMatch is the reference: the specifier's wallet part must be the
@@ -210,7 +212,9 @@ func c13FullMatch(spec, wallet, account string) bool {
 	if len(parts) == 2 && parts[1] != "" {
 		a = strings.TrimSuffix(strings.TrimPrefix(parts[1], "^"), "$")
 	}
-	return w == wallet && regexp.MustCompile("^(?:"+a+")$").MatchString(account)
+	// (a specifier whose expression does not compile is dropped: it admits nothing)
+	re, err := regexp.Compile("^(?:" + a + ")$")
+	return err == nil && w == wallet && re.MatchString(account)
 }
 
 // VerifC13_Specifiers: an account offered by the remote signer is used exactly
